@@ -287,10 +287,12 @@ func (es *EventSystem) consumeEvents() {
 				continue
 			}
 
+			// hold the read lock until the event is handed over (or dropped),
+			// so the channel can not be closed by eventLoop in the meantime
 			es.indexMux.RLock()
 			ch, ok := es.topicChans[ev.Query]
-			es.indexMux.RUnlock()
 			if !ok {
+				es.indexMux.RUnlock()
 				es.logger.Debug("channel for subscription not found", "topic", ev.Query)
 				es.logger.Debug("list of available channels", "channels", es.eventBus.Topics())
 				continue
@@ -303,6 +305,7 @@ func (es *EventSystem) consumeEvents() {
 				es.logger.Debug("dropped event during lagging subscription", "topic", ev.Query)
 			case ch <- ev:
 			}
+			es.indexMux.RUnlock()
 		}
 
 		time.Sleep(time.Second)
